@@ -486,6 +486,21 @@ def run(world, rep, tier, only=None):
     rep.ob("C09.y", site(ss2, "inline files are resized in the inline area"), handled,
            "a test of EXT4_INLINE_DATA_FL leads to ext2fs_inline_data_set() (shrink, cut bytes cleared) and ext2fs_inline_data_expand() (does not fit)")
 
+    # ------------------------------------------------------------------ C09.z punching a hole into an extent cuts nothing before the new half is in
+    # Splitting an extent around a hole adds the right half (which may need a new tree block, and fail on a full file
+    # system) and shortens the left half.  The shortening comes after the insertion succeeded: a left half cut first
+    # leaves, when the insertion fails, a file whose blocks behind the hole read as zeroes while they stay allocated.
+    pe = prog.fn("ext2fs_punch_extent", "lib/ext2fs/punch.c")
+    ins_ = calls_to(pe, "ext2fs_extent_insert")
+    rpl = calls_to(pe, "ext2fs_extent_replace")
+    rep.floor("C09.z insert / replace calls in ext2fs_punch_extent", min(len(ins_), len(rpl)), 1)
+    for i, c in enumerate(ins_):
+        hb = loop_head(pe, c)
+        h0 = [pe.node(hb, 0)] if hb is not None else []
+        before = [r_ for r_ in rpl if c in pe.reach(pe.after(r_), avoid=h0) and pe.dominated_by(c, [r_])]
+        rep.ob("C09.z", site(pe, "no extent is rewritten on the way to the insertion of the right half#%d" % i), not before,
+               "ext2fs_extent_replace() calls that dominate ext2fs_extent_insert() within one turn of the loop: %s" % [r_.line for r_ in before])
+
 
 def copy_in_rules(prog, rep, RULE):
     """every copy into the handle's block buffer is paired with the dirty mark and preceded by a load, and the load
